@@ -291,7 +291,9 @@ def apply_time_range_vevent(start, end, comp, tzify):
 
     duration = comp.get("DURATION")
     if duration:
-        return start < tzify(dtstart.dt) + duration.dt
+        if duration.dt > timedelta(0):
+            return start < tzify(dtstart.dt) + duration.dt
+        return start <= tzify(dtstart.dt)
     if getattr(dtstart.dt, "time", None) is not None:
         return start <= tzify(dtstart.dt)
     else:
@@ -325,7 +327,7 @@ def apply_time_range_vtodo(start, end, comp, tzify):
             )
         elif due and not duration:
             return (start <= tzify(dtstart.dt) or start < tzify(due.dt)) and (
-                end > tzify(dtstart.dt) or end < tzify(due.dt)
+                end > tzify(dtstart.dt) or end >= tzify(due.dt)
             )
         else:
             return start <= tzify(dtstart.dt) and end > tzify(dtstart.dt)
@@ -343,7 +345,7 @@ def apply_time_range_vtodo(start, end, comp, tzify):
         else:
             return start <= tzify(completed.dt) and end >= tzify(completed.dt)
     elif created:
-        return end >= tzify(created.dt)
+        return end > tzify(created.dt)
     else:
         return True
 
